@@ -329,7 +329,7 @@ func TestC04Rapid(t *testing.T) {
 					c.Class("l2-refused-withdrawal")
 				}
 			case "refund":
-				to := rapid.SampledFrom([]string{"not-an-l2-address", "受取人 with spaces", strings.Repeat("x", 400), " ", "init1qqqqqqqqqqqqqqqqqqqqqqqqqqqqqqqqqqqqqq"}).Draw(rt, "badto")
+				to := rapid.SampledFrom([]string{"not-an-l2-address", "受取人 with spaces", strings.Repeat("x", 400), " ", "init1qqqqqqqqqqqqqqqqqqqqqqqqqqqqqqqqqqqqqq", ""}).Draw(rt, "badto")
 				acc, err := w.deposit(to, sdk.Coin{Denom: denom, Amount: amt})
 				if err != nil {
 					fail(err)
